@@ -80,7 +80,7 @@ func cfgFromRequest(r *http.Request, log *slog.Logger) (nowMS int, cfg *Response
 	}
 
 	if nowMS < cfg.StartTimeS*1000 {
-		tooEarlyMS := cfg.StartTimeS - nowMS
+		tooEarlyMS := cfg.StartTimeS*1000 - nowMS
 		msg := fmt.Sprintf("%dms too early", tooEarlyMS)
 		return 0, nil, generateAndLogHttpError(log, msg, http.StatusTooEarly)
 	}
